@@ -347,3 +347,15 @@ reading taken before waiting for the lock) the test says "not expired" and the i
 theorem stale_clock_serves_expired :
     ∃ (m : Obj) (e tc tg : Int), m.get? "expires" = some (.num e) ∧ e ≠ 0 ∧ tc < e ∧ e ≤ tg ∧ checkExpiration m tc = .ok false :=
   ⟨[("k", .num 1), ("expires", .num 10)], 10, 9, 11, rfl, by decide, by decide, by decide, by decide⟩
+
+
+/-! ## Go types of `ttl` and `expires`
+
+`setExpires` of the model sees JSON numbers and strings. The real one switches on the Go type: `float64` (decoded JSON),
+`int64` (what the Javascript runtime exports for an integer, and Go callers), `string`. The table is regenerated from
+`core/state.go` on every run; that both numeric cases of the `ttl` switch are *relative* is what the differential runs
+with documents written by rule actions check (an `int64` ttl used to be taken as an absolute time: fix 8101dca). -/
+
+/-- both switches of `setExpires` (first `ttl`, then `expires`) know float64, int64 and string -/
+theorem expiry_types :
+    Gen.expiryTypes = [["float64", "int64", "string", "default"], ["float64", "int64", "string", "default"]] := by decide
